@@ -14,6 +14,17 @@ Monitors
 * laws: wrap/fold/wrap2/fold2/clip2 inside closed bounds, clip idempotent, round/roundup/
   trunc multiples of the quantum on the correct side, mod in [0, b), the four
   inverse pairs (vf/c15_laws.py; in-domain arguments only).
+* laws, operands a hair beside a multiple (round 10, vf/c15_laws.py law_near):
+  x = (k +- 2**-j) * quant and (k + 1/2 +- 2**-j) * quant, 1 ulp ... 2**-28
+  relative, dyadic quanta, all exactly representable, so the documented
+  formulas are exact: trunc / roundup / round must return THE nearest multiple
+  on the correct side (exact fractions.Fraction reference) - the tolerance
+  laws accept a wrong-side multiple within a few ulp of the operand.
+* comparisons (round 10, vf/c15_compare.py, run with the meta checks): the six
+  comparison operators, Python spelling, on Operand / Rest / lifted objects
+  against a plain number or the same family on either side, over int / float
+  spellings of equal and unequal values and ints beyond 2**53; reference: the
+  Python comparison of the plain numbers.
 * meta: a method's selector has the method's name; every binary special
   method has its reflected form; no operator method is hidden by an instance
   attribute of a subclass.
@@ -40,7 +51,10 @@ RULE = ("operator entry points enumerated by introspection (all operator methods
         "Routine, composed stream, Pattern, composed pattern, ChannelList, nested "
         "ChannelList, arrayed_param, list, tuple, nested list, Operand, Rest} on "
         "either side with random small int/float values; law samples draw "
-        "in-domain int/float arguments incl. boundaries and mixed types; a lifting "
+        "in-domain int/float arguments incl. boundaries and mixed types, and operands "
+        "(k +- 2**-j) * quant a hair beside multiples / ties of dyadic quanta; a "
+        "deterministic grid of 9600 comparisons (6 operators x 50 value pairs in "
+        "int/float spellings x 32 kind pairs); a lifting "
         "case is non-trivial when the evaluation is a value (not an exception); "
         "a law case always is; distinct = hash of entry point, kinds and values; "
         "effects cases: random expression (depth <= 2) of one operator entry over "
@@ -93,7 +107,15 @@ ASSUMPTIONS = [
     "over); the operand bodies' own logs are trusted",
     "law tolerances: 4 ulp of the largest argument for range laws, 1e-12 "
     "relative for multiples, 1e-9 relative for inverse pairs (vf/c15_laws.py); "
-    "the exact laws compare exactly on dyadic arguments"]
+    "the exact laws compare exactly on dyadic arguments",
+    "law_near: only operands for which x, x / quant (and x / quant + 1/2) are "
+    "exactly representable are generated (checked with Fraction), so the "
+    "documented formulas floor(x/q)*q, ceil(x/q)*q, floor(x/q + .5)*q involve no "
+    "rounding; trunc toward zero is accepted for negative operands as in "
+    "law_round; decimal quanta (0.1 ...) stay with the tolerance laws",
+    "comparison grid: the result of a comparison is evaluated like every lifted "
+    "object (an Operand(False) unwraps to False); its truth value as an object is "
+    "not judged; mixed families are left to the random lifting cases"]
 FX_MIN = {'fx_function_calls_judged': 50000,
           'fx_function_calls_with_operand_failure': 18000,
           'fx_function_calls_after_a_failure': 30000,
@@ -109,6 +131,19 @@ FX_MIN = {'fx_function_calls_judged': 50000,
           'fx_stream_histories_value_after_failure': 1000,
           'fx_stream_operand_pfuncn': 700, 'fx_stream_operand_routine': 700,
           'fx_operand_bodies_run': 90000}
+# round 10: comparison grid (deterministic, vf/c15_compare.py) and operands a
+# hair beside a multiple of the quantum (vf/c15_laws.py law_near)
+CMP_MIN = {'compare_cases_checked': 9000, 'compare_op_ne': 1500, 'compare_op_le': 1500,
+           'compare_values_int-vs-float-equal-value': 1000,
+           'compare_values_float-vs-int-equal-value': 1000,
+           'compare_values_large-int-vs-float': 500,
+           'compare_abstract-left_operand': 500, 'compare_number-left_operand': 500,
+           'compare_both-abstract_operand': 1000}
+NEAR_MIN = {'law_near': 2500,
+            'law_near_hair-below-multiple': 500, 'law_near_hair-above-multiple': 500,
+            'law_near_one-ulp-below-multiple': 80, 'law_near_one-ulp-above-multiple': 80,
+            'law_near_hair-below-tie': 100, 'law_near_hair-above-tie': 100,
+            'law_op_trunc': 2000, 'law_op_roundup': 2000}
 MIN_COUNTERS = {
     'quick': {'lift_method_evaluations': 5000, 'lift_builtin_evaluations': 5000,
               'lift_value_agreements': 6000, 'law_samples': 20000,
@@ -124,7 +159,8 @@ MIN_COUNTERS = {
               'stream_histories_poll_paused_then_continue': 500,
               'stream_histories_exhaust_then_reset_operand': 300,
               'max_method_entry_points': 100, 'max_builtin_entry_points': 100,
-              'meta_checks': 100, **{k: v for k, v in FX_MIN.items()}},
+              'meta_checks': 100, **CMP_MIN, **NEAR_MIN,
+              **{k: v for k, v in FX_MIN.items()}},
     'thorough': {'lift_method_evaluations': 600000,
                  'lift_builtin_evaluations': 600000,
                  'lift_value_agreements': 800000, 'law_samples': 3000000,
@@ -140,7 +176,9 @@ MIN_COUNTERS = {
                  'stream_histories_poll_paused_then_continue': 20000,
                  'stream_histories_exhaust_then_reset_operand': 10000,
                  'max_method_entry_points': 100, 'max_builtin_entry_points': 100,
-                 'meta_checks': 100, **{k: 5 * v for k, v in FX_MIN.items()}},
+                 'meta_checks': 100, **CMP_MIN,
+                 **{k: 10 * v for k, v in NEAR_MIN.items()},
+                 **{k: 5 * v for k, v in FX_MIN.items()}},
 }
 
 
@@ -1163,10 +1201,10 @@ def run_laws(spec, acc):
             acc.count('law_inverse_' + args['pair'])
         if 'op' in args:
             acc.count('law_op_' + args['op'])
-        if law == 'exact':
-            acc.count('law_exact_' + str(args.get('class', 'other')).split('/')[0])
+        if law in ('exact', 'near'):
+            acc.count(f'law_{law}_' + str(args.get('class', 'other')).split('/')[0])
             if 'via' in args:
-                acc.count('law_exact_via_' + args['via'])
+                acc.count(f'law_{law}_via_' + args['via'])
         acc.case(h64((law, repr(sorted(args.items())))), nontrivial=True)
         if bad:
             lawname = bad[2] if len(bad) > 2 else law
@@ -1229,6 +1267,11 @@ def run_meta(spec, acc):
             acc.violation(OPERAND_EQ_KEY, {'case': 0, 'left': repr(a),
                                            'right': repr(b), 'result': repr(r),
                                            'expected': va == vb})
+    # 2b'. all six comparison operators on int / float spellings of equal and
+    # unequal values, Operand / Rest / lifted objects on either side
+    # (vf/c15_compare.py)
+    from vf import c15_compare
+    c15_compare.run(acc, OPERAND_EQ_KEY)
     # 2c. the empty list as receiver / binary operand (deterministic companion
     # of the random lifting cases): the result is the empty list
     from sc3.synth.ugen import ChannelList
